@@ -527,6 +527,21 @@ def boundary_cases():
                 proj = {"yaml": {unit: {"enabled": True}}, "json": None, "pyproject": None, "dash": None}
                 out.append({"i": f"bound:{unit}:{opt}:cli0", "unit": unit, "lang": lang, "via": "cli", "metrics": m, "proj": proj,
                             "overrides": [[u["cli"][opt], 0]], "fname": "case_src" + EXT[lang]})
+    # a permissive CLI option against a strict per-language sub-section, for every language of the unit
+    for unit, u in UNITS.items():
+        for opt, cli in (u.get("cli") or {}).items():
+            if opt not in u.get("lang_over", []):
+                continue
+            metric, direction = [(mm, dd) for o, mm, dd in u["limits"] if o == opt][0]
+            for lang in u["langs"]:
+                m = {mm: METRIC_RANGE[mm][1] - 1 for _, mm, _ in u["limits"]}
+                strict, loose = (2, m[metric] + 3) if direction > 0 else (m[metric] + 3, 2)
+                body = {lang: {opt: strict}}
+                if not u.get("enabled_default", True):
+                    body["enabled"] = True
+                proj = {"yaml": {unit: body}, "json": None, "pyproject": None, "dash": None}
+                out.append({"i": f"cli-vs-lang:{unit}:{lang}", "unit": unit, "lang": lang, "via": "cli", "metrics": m, "proj": proj,
+                            "overrides": [[cli, loose]], "fname": "case_src" + EXT[lang]})
     return out
 
 
